@@ -180,6 +180,38 @@ def scan_file(path: str, lang: str) -> dict:
                 info['from'].append([m.group(1), m.group(2), m.group(3)])
     if lang == 'cpp':
         info['last_endif'] = lines[-1] if lines else ''
+    if lang == 'py':
+        # every import statement of the RENDERED module, at any depth (module level, class bodies, function bodies)
+        import ast as _ast
+        info['all_imports'] = []
+        try:
+            tree = _ast.parse(text, filename=path)
+            depth_of = {}
+
+            def walk(node, depth, func):
+                for ch in _ast.iter_child_nodes(node):
+                    scope = isinstance(ch, (_ast.FunctionDef, _ast.AsyncFunctionDef, _ast.ClassDef, _ast.Lambda))
+                    d = depth + (1 if scope else 0)
+                    fn = (func or getattr(ch, 'name', '<lambda>')) if scope else func      # outermost enclosing def/class
+                    if isinstance(ch, _ast.Import):
+                        for a in ch.names:
+                            info['all_imports'].append({'module': a.name, 'level': 0, 'names': [], 'depth': depth, 'line': ch.lineno, 'as': a.asname,
+                                                        'func': func})
+                    elif isinstance(ch, _ast.ImportFrom):
+                        info['all_imports'].append({'module': ch.module or '', 'level': ch.level, 'names': [a.name for a in ch.names], 'depth': depth,
+                                                    'line': ch.lineno, 'as': None, 'func': func})
+                    walk(ch, d, fn)
+            walk(tree, 0, None)
+            # dynamic imports by name
+            for n in _ast.walk(tree):
+                if isinstance(n, _ast.Call) and ((isinstance(n.func, _ast.Name) and n.func.id == '__import__') or
+                                                 (isinstance(n.func, _ast.Attribute) and n.func.attr == 'import_module')):
+                    arg = n.args[0].value if n.args and isinstance(n.args[0], _ast.Constant) else None
+                    info['all_imports'].append({'module': arg if isinstance(arg, str) else '?dynamic', 'level': 0, 'names': [], 'depth': 9, 'line': n.lineno, 'as': None, 'func': None})
+            info['imports'] = [i['module'] for i in info['all_imports'] if i['depth'] == 0 and not i['names'] and i['as'] is None and i['level'] == 0]
+            info['from'] = [[i['module'], n, n] for i in info['all_imports'] if i['depth'] == 0 and i['names'] and i['level'] == 0 for n in i['names']]
+        except SyntaxError as ex:
+            info['syntax_error'] = '%s (line %s)' % (ex.msg, ex.lineno)
     return info
 
 
